@@ -339,6 +339,8 @@ class C01(Check):
         k = op[0]
         kw = {"return_transform": True} if rt else {}
         meta = {"order": 1, "mask": True, "template_mask": None, "landmarks_inside_only": False}
+        # documented boundary mode of each op: the rescale family, zoom and mirror replicate the edge, the others fill with cval=0
+        meta["mode"] = "nearest" if k in ("rescale", "rescale_to_diagonal", "rescale_to_pointcloud", "rescale_landmarks_to_diagonal_range", "resize", "zoom", "mirror") else "constant"
 
         def unpack(res):
             return (res[0], res[1]) if rt else (res, None)
@@ -512,7 +514,44 @@ class C01(Check):
                 fails.append(Failure(where, "pixels-vs-transform", "%s %r: result pixel %s maps to source %s; expected %s got %s (max err %.3g over %d pixels)" % (cls, op, pj.tolist(), TP[consider][j].tolist(), e[:, j], g[:, j], err.max(), int(consider.sum()))))
         elif op[0] not in ("crop_to_landmarks", "crop_to_pointcloud"):
             self.note("no-comparable-pixel")
+        # (a') result pixels that map outside the source frame follow the op's boundary mode: fill value 0 / False
+        #      ('constant', compared when more than one pixel outside) or the replicated edge ('nearest')
+        S_src = np.array(img.shape)
+        outside = ~np.all((TP >= 0) & (TP <= S_src - 1), axis=1) & np.all(np.abs(TP) < 1e8, axis=1)
+        far = outside & np.any((TP < -1.0) | (TP > S_src), axis=1)
+        mode = meta.get("mode", "constant")
+        sel_px = (far if mode == "constant" else outside).copy()
+        if tm is not None:
+            sel_px &= tm.reshape(-1)
+        if isinstance(res, MaskedImage) and not is_wtm:
+            sel_px &= res.mask.pixels.reshape(-1)
+        if sel_px.any():
+            self.note("outside-pixels-compared", int(sel_px.sum()))
+            if mode == "constant":
+                bad = np.any(got[:, sel_px] != 0, axis=0)
+                if bad.any():
+                    j = int(np.nonzero(bad)[0][0])
+                    fails.append(Failure(where, "outside-not-fill-value", "%s %r: result pixel %s maps to %s outside the source but holds %s" % (cls, op, P[sel_px][j].tolist(), TP[sel_px][j].tolist(), got[:, sel_px][:, j])))
+            else:
+                clipped = np.clip(TP[sel_px], 0, S_src - 1)
+                e2, v2 = (ref_nearest if order == 0 else ref_linear)(src_px, clipped)
+                if v2.any():
+                    g2 = got[:, sel_px][:, v2].astype(float)
+                    tol2 = 1.0 + 1e-9 if src_px.dtype == np.uint8 else (0 if src_px.dtype == bool else (2e-4 if src_px.dtype == np.float32 else 1e-9) * max(1.0, np.abs(e2).max()))
+                    if np.abs(g2 - e2[:, v2].astype(float)).max() > tol2:
+                        fails.append(Failure(where, "outside-not-edge-replicated", "%s %r: pixels mapping outside the source are not the replicated edge (max err %.3g)" % (cls, op, np.abs(g2 - e2[:, v2].astype(float)).max())))
         # (d) mask carried by the same mapping
+        if isinstance(img, MaskedImage) and not is_wtm:
+            gm_all = res.mask.pixels.reshape(-1)
+            if mode == "constant" and far.any():
+                self.note("outside-mask-compared", int(far.sum()))
+                if gm_all[far].any():
+                    j = int(np.nonzero(gm_all[far])[0][0])
+                    fails.append(Failure(where, "mask-true-outside-source", "%r: result pixel %s maps to %s outside the source frame but is masked True" % (op, P[far][j].tolist(), TP[far][j].tolist())))
+            elif mode == "nearest" and outside.any():
+                em, vm = ref_nearest(img.mask.pixels, np.clip(TP[outside], 0, S_src - 1))
+                if vm.any() and np.any(gm_all[outside][vm] != em[0][vm]):
+                    fails.append(Failure(where, "mask-outside-not-edge-replicated", "%r" % (op,)))
         if isinstance(img, MaskedImage) and not is_wtm:
             m_src = img.mask.pixels
             expm, validm = ref_nearest(m_src, TP)
@@ -624,7 +663,7 @@ class C01(Check):
                 fails.append(Failure(kind, "level-vs-rescale", "level %d: %s" % (k + 1, d)))
                 break
             # landmarks / pixels / samples of the level against the image it was rescaled from, through the level's transform
-            meta = {"order": 1, "mask": True, "template_mask": None, "landmarks_inside_only": False}
+            meta = {"order": 1, "mask": True, "template_mask": None, "landmarks_inside_only": False, "mode": "nearest"}
             fails += self._oracle(base, cur, T, meta, kind, (kind, "level", k + 1), ramp_source=(kind == "pyramid" and k == 1))
             for g in prev.landmarks:
                 if np.abs(base.landmarks[g].points - prev.landmarks[g].points).max() > 0:
@@ -633,7 +672,7 @@ class C01(Check):
 
     # ------------------------------------------------------------------ reporting
     def vacuity(self, notes, stats):
-        need = ["pixels-compared", "mask-compared", "landmarks-compared", "samples-compared", "pyramid:levels", "gaussian_pyramid:levels", "warp_to_mask:BooleanImage", "warp_to_shape:MaskedImage", "rotate:BooleanImage", "crop_to_true_mask:MaskedImage", "rescale:Image"]
+        need = ["pixels-compared", "outside-pixels-compared", "outside-mask-compared", "mask-compared", "landmarks-compared", "samples-compared", "pyramid:levels", "gaussian_pyramid:levels", "warp_to_mask:BooleanImage", "warp_to_shape:MaskedImage", "rotate:BooleanImage", "crop_to_true_mask:MaskedImage", "rescale:Image"]
         return ["outcome %s never produced" % n for n in need if not notes.get(n)]
 
     def rule(self):
